@@ -29,6 +29,20 @@ def c02_alpha(n, full):
     return ','.join(out)
 
 
+def c02_rank(r):
+    wild = str(r.params.get('prog', '')).startswith('?')
+    n = int(r.params.get('n', 0))
+    if r.mode != 'plain':
+        return 0
+    if r.bound == 1 and not wild:
+        return 1 + n
+    if r.bound == 1:
+        return 4 + n
+    if r.bound == 0:
+        return 7 + n + (3 if r.params['prog'] == '?3' else 0)
+    return 20
+
+
 def c02_runs(tier):
     runs = []
     quick = tier == 'quick'
@@ -47,7 +61,9 @@ def c02_runs(tier):
     k = 0
     for set_ in SETS:
         for n in (0, 1):
-            add(set_, n, 0, '?2' if quick else '?3', '?', 0, alpha=c02_alpha(n, not quick), budget=60 if quick else 240)
+            add(set_, n, 0, '?2', '?', 0, alpha=c02_alpha(n, not quick), budget=60 if quick else 240)
+            if not quick:
+                add(set_, n, (1, 4)[(k + n) % 2], '?3', waits[(k + 2 * n) % 5], 0, alpha=c02_alpha(n, False), budget=240)
         if quick:
             add(set_, 2, 0, '?1', '?', 0, alpha=c02_alpha(2, True), budget=60)
         else:
@@ -88,6 +104,8 @@ def c02_runs(tier):
     add('ch', 1, 4, 'sa', 'd', 0, mode='tsan', budget=40)
     add('cl', 1, 1, 'tn', '1', 0, mode='asan', budget=40)
     add('ts', 1, 4, 'b1T', 'd', 0, mode='asan', budget=40)
+    # cheapest and most discriminating first, so that a loaded machine cuts the tail, not the head
+    runs.sort(key=c02_rank)
     return runs
 
 
@@ -187,6 +205,7 @@ def c04_runs(tier):
     add('ts', 1, 'P1', 's', 1, g=0, pos=0, mode='tsan', budget=40)
     add('ch', 1, 'ex', 'qsb2', 1, mask=1, pos=0, mode='asan', budget=40)
     add('ts', 1, 'p2', 'sq', 0, mode='asan', budget=40)
+    runs.sort(key=lambda r: (0 if r.mode != 'plain' else 1) if quick else c02_rank(r))
     return runs
 
 
@@ -258,6 +277,7 @@ def c05_runs(tier):
     add('cl', 2, 'b2', 3, 0, slm=4, mode='tsan', budget=40)
     add('ch', 1, 'sq', 3, 1, g=3, r='x', mode='asan', budget=50)
     add('ts', 0, 'B1s', 2, 0, r='x', mode='asan', budget=40)
+    runs.sort(key=lambda r: (0 if r.mode != 'plain' else 1) if quick else c02_rank(r))
     return runs
 
 
